@@ -39,7 +39,7 @@ ASSUMPTIONS = [
     "library connections are opened with timeout=0 (sqlite3 proxy) so that SQLITE_BUSY surfaces at once instead of after 5 real seconds",
 ]
 EXPECTED_PROBES = ["observer-look", "observer-saw-pending-hidden", "crash-snapshot", "snapshot-hot-journal", "busy-commit", "busy-released-retry-ok", "holder-is-sqlitereader",
-                   "schema-gained-column", "second-batch-size", "sql-keyword-name", "int64-boundary", "second-writer-session"]  # fmt: skip
+                   "schema-gained-column", "second-batch-size", "sql-keyword-name", "int64-boundary", "second-writer-session", "descriptors-touched"]  # fmt: skip
 
 TABLE_NAMES = ["t/a", "select", "Mixed/Case_1", "x", "order/by", "group", "a/b/c", "table", "index/from", "sqlite3/journal", "sqlitex/y_", "SQLiteWal/frame", "main/temp",
                "a_b", "T1/t_2", "pragma", "rowid/oid", "u__v"]
@@ -95,6 +95,12 @@ def generate(rng, tier, index):
     for n in names:
         base[n] = rng.sample(fnames, rng.randrange(1, 4))
         cols[n] = list(base[n])
+    if rng.random() < 0.15:
+        # two type names that differ only in "/" versus "_" (same Python class name) with identical fields
+        names = ["tw/in", "tw_in"] + names[:1]
+        for n in ("tw/in", "tw_in"):
+            base[n] = list(base[names[-1]])
+            cols[n] = list(base[n])
     pool = {}
     ops = []
     n_writes = rng.choice([0, 1, 2, 3, 5, 8, 12, 20] if tier == "quick" else [0, 1, 3, 6, 10, 20, 40])
@@ -146,6 +152,8 @@ def generate(rng, tier, index):
                 ops.append({"op": "flush"})
             elif r < 0.66 and not holding:
                 ops.append({"op": "reopen"})  # the export is continued by a new writer session on the same file
+            elif r < 0.72:
+                ops.append({"op": "touch"})  # other code looks at the descriptors (identifier, repr, equality) in between
             elif mode == "hold" and r < 0.80:
                 if not holding:
                     ops.append({"op": "hold", "kind": holder_kind})
@@ -233,6 +241,11 @@ class Workload:
                 continue
             elif k == "flush":
                 self.call("flush", self.writer.flush, commits=True)
+            elif k == "touch":
+                for key in sorted(self.pool.desc):
+                    d = self.pool.desc[key]
+                    _ = (d.identifier, repr(d), hash(d), d == d)
+                w.probe("descriptors-touched")
             elif k == "reopen":
                 if self.holder is None and not self.busy:
                     if self.call("close", self.writer.close, commits=True):
